@@ -4,7 +4,7 @@ src/api/rule.rs).
 * the two `format!` strings of `MarkerString::new` (`(?:{})`, `(?P<{}>{})`) are emitted (the model builds the groups from
   them, so `regex_is_tokens` is re-proved against what the source says now);
 * `Marker::format` = `@{}`, the two sorts (markers: descending name.len(); variables: descending key.len() then ascending key), the guarded replace and the `replacen(.., 1)` of the capture
-  string, and `StaticOrDynamic::replace` must still have the shapes the model mirrors: anything else fails closed;
+  string, and the one-pass scan of `StaticOrDynamic::replace` (compared token for token, comments stripped) must still have the shapes the model mirrors: anything else fails closed;
 * the transformer kinds dispatched by `Transformer::to_transform` and the option keys of replace / slice are emitted
   (Props/C10 `transformer_kinds_tie` checks that the model recognises exactly these).
 """
@@ -34,8 +34,18 @@ def extract(read, fail, lean_str, lean_list):
         fail("marker/mod.rs: the guarded replace of the matching regex changed shape")
     if not re.search(r"capture = capture\s*\.replacen\(marker\.format\(\)\.as_str\(\), marker_capture\.as_str\(\), 1\)\s*\.replace\(marker\.format\(\)\.as_str\(\), marker_regex\.as_str\(\)\);", m):
         fail("marker/mod.rs: the capture string is no longer replacen(@name, capture group, 1).replace(@name, plain group)")
-    if not re.search(r'str = str\.replace\(format!\("@\{name\}"\)\.as_str\(\), value\.as_str\(\)\)', m):
-        fail("marker/mod.rs: StaticOrDynamic::replace is no longer a sequential str::replace of @name")
+    rep = re.search(r"pub fn replace\(str: String, variables: &\[\(String, String\)\]\) -> String \{(.*?)\n    \}\n", m, re.S)
+    if not rep:
+        fail("marker/mod.rs: StaticOrDynamic::replace(str, variables) not found")
+    body = re.sub(r"\s*//[^\n]*", "", rep.group(1))
+    body = re.sub(r"\s+", " ", body).strip()
+    want = ("let mut result = String::with_capacity(str.len()); let mut rest = str.as_str(); "
+            "'template: while let Some(at) = rest.find('@') { result.push_str(&rest[..at]); let after = &rest[at + 1..]; "
+            "for (name, value) in variables { if after.starts_with(name.as_str()) { result.push_str(value.as_str()); "
+            "rest = &after[name.len()..]; continue 'template; } } result.push('@'); rest = after; } "
+            "result.push_str(rest); result")
+    if body != want:
+        fail("marker/mod.rs: StaticOrDynamic::replace is no longer the one-pass scan the model mirrors: " + body[:200])
     r = read("src/api/rule.rs")
     if not re.search(r"variables\.sort_by\(\|\(key_a, _\), \(key_b, _\)\| key_b\.len\(\)\.cmp\(&key_a\.len\(\)\)\.then_with\(\|\| key_a\.cmp\(key_b\)\)\);", r):
         fail("api/rule.rs: the variables are no longer sorted by (descending key.len(), ascending key)")
